@@ -347,7 +347,13 @@ def skeleton_case(draw):
     n = 0
     if draw(st.booleans()):
         n = draw(st.integers(1, 3))
-        lines += ["while True:"] + ["    " + b for b in reads + sk.block(1, False) + ["sleep(1)"]]
+        body = reads + sk.block(1, False)
+        if draw(st.booleans()):
+            # a loop whose condition is false for the value the name has textually before it (0 from the prologue) and true in later passes,
+            # because the body sets the name further down: the loop belongs to the program whatever its condition folds to at parse time
+            lines.insert(0, "f0 = 0")
+            body = [f"while f0 > 0:", "    f0 = f0 - 1", "    " + sk.marker()] + body + [f"f0 = {draw(st.integers(1, 2))}"]
+        lines += ["while True:"] + ["    " + b for b in body + ["sleep(1)"]]
     vals = draw(st.lists(st.sampled_from([0, 200, 400, 600, 800, 1023]), min_size=3 * (n + 1), max_size=3 * (n + 1)))
     return {"skeleton": SK_HEAD + "\n".join(lines) + "\n", "n": n, "tape": {"analog": {"14": vals}, "digital": {}}, "empty_then_live": sk.empty_then_live, "empty": sk.n_empty}
 
